@@ -86,6 +86,10 @@ func CheckPresignedSignature(ctx *fiber.Ctx, auth AuthData, secret string, debug
 		}
 	}
 
+	if hasUnsignedAmzHeader(ctx, signedHdrs) {
+		return s3err.GetAPIError(s3err.ErrUnsignedHeaders)
+	}
+
 	// Create a new http request instance from fasthttp request
 	req, err := createPresignedHttpRequestFromCtx(ctx, signedHdrs, contentLength)
 	if err != nil {
